@@ -122,6 +122,41 @@ fn launch_script(form: char, k: u32) -> String {
     }
 }
 
+/// `@<c>` prefix of an op's payload: the command is issued from inside context c
+/// (f function, g two functions deep, e eval, b brace group with a redirect, l loop body, r sourced file,
+///  s subshell, c command substitution).  Returns (context, rest of the payload).
+fn split_ctx(rest: &str) -> (Option<char>, &str) {
+    let mut it = rest.chars();
+    if it.next() == Some('@') {
+        if let Some(c) = it.next() {
+            return (Some(c), &rest[1 + c.len_utf8()..]);
+        }
+    }
+    (None, rest)
+}
+
+fn forks(c: Option<char>) -> bool {
+    matches!(c, Some('s') | Some('c'))
+}
+
+fn in_ctx(c: Option<char>, cmd: &str) -> String {
+    match c {
+        Some('f') => format!("vhc() {{ {cmd}; }}; vhc"),
+        Some('g') => format!("vhc1() {{ {cmd}; }}; vhc2() {{ vhc1; }}; vhc2"),
+        Some('e') => format!("eval {}", vh::sq(cmd)),
+        Some('b') => format!("{{ {cmd}; }} 2>/dev/null"),
+        Some('l') => format!("for vhi in 1; do {cmd}; done"),
+        Some('r') => {
+            let path = std::env::temp_dir().join(format!("vh-c17-src-{}", std::process::id()));
+            let _ = std::fs::write(&path, format!("{cmd}\n"));
+            format!(". {}", vh::sq(path.to_str().unwrap()))
+        }
+        Some('s') => format!("( {cmd} )"),
+        Some('c') => format!("vhx=$({cmd})"),
+        _ => cmd.to_string(),
+    }
+}
+
 fn tag_of(cmdline: &str) -> String {
     match cmdline.find("vhgate ") {
         Some(p) => cmdline[p + 7..].chars().take_while(|c| c.is_ascii_digit()).collect(),
@@ -252,20 +287,23 @@ async fn one_case(line: String, block_ms: u64) -> String {
                 }
             }
             "W" => {
-                let need: Vec<u32> = (1..=launched).collect();
-                let r = with_schedule(&mut shell, "wait", parse_sched(rest), need, launched, block_ms).await;
+                let (c, rest) = split_ctx(rest);
+                // a clone (subshell, command substitution) has its own empty job table: its wait must return at once
+                let need: Vec<u32> = if forks(c) { vec![] } else { (1..=launched).collect() };
+                let r = with_schedule(&mut shell, &in_ctx(c, "wait"), parse_sched(rest), need, launched, block_ms).await;
                 extra = r.into();
                 if r == "blocked" {
                     stuck = true;
                 }
             }
             "S" => {
+                let (c, rest) = split_ctx(rest);
                 let (spec, sched) = rest.split_once(':').unwrap_or((rest, ""));
                 let need: Vec<u32> = match shell.jobs_mut().resolve_job_spec(spec) {
-                    Some(j) => tag_of(&j.command_line).parse().ok().into_iter().collect(),
-                    None => vec![],
+                    Some(j) if !forks(c) => tag_of(&j.command_line).parse().ok().into_iter().collect(),
+                    _ => vec![],
                 };
-                let r = with_schedule(&mut shell, &format!("wait {spec} 2>/dev/null"), parse_sched(sched), need, launched, block_ms).await;
+                let r = with_schedule(&mut shell, &in_ctx(c, &format!("wait {spec} 2>/dev/null")), parse_sched(sched), need, launched, block_ms).await;
                 extra = r.into();
                 if r == "blocked" {
                     stuck = true;
@@ -280,7 +318,8 @@ async fn one_case(line: String, block_ms: u64) -> String {
             "J" => {
                 let path = std::env::temp_dir().join(format!("vh-c17-jobs-{}", std::process::id()));
                 let _ = std::fs::remove_file(&path);
-                let _ = vh::run(&mut shell, &format!("jobs > {}", vh::sq(path.to_str().unwrap()))).await;
+                let (c, _) = split_ctx(rest);
+                let _ = vh::run(&mut shell, &in_ctx(c, &format!("jobs > {}", vh::sq(path.to_str().unwrap())))).await;
                 let text = std::fs::read_to_string(&path).unwrap_or_default();
                 let _ = std::fs::remove_file(&path);
                 let mut items = vec![];
